@@ -621,7 +621,7 @@ func (a *analysis) classifyUse(p *pkgInfo, stack []ast.Node) use {
 				if l == cur {
 					switch {
 					case path == "":
-						return done("assign", "")
+						return done("assign", lazyInit(p, stack, id))
 					case strings.HasSuffix(path, "]"):
 						return done("elem-write", "")
 					default:
@@ -758,6 +758,33 @@ func (a *analysis) classifyUse(p *pkgInfo, stack []ast.Node) use {
 		}
 	}
 	return value("other")
+}
+
+// lazyInit recognises `if V == nil { V = ... }` (racy lazy initialisation unless it runs in init() or under sync.Once / a mutex).
+func lazyInit(p *pkgInfo, stack []ast.Node, id *ast.Ident) string {
+	v := p.info.Uses[id]
+	for i := len(stack) - 1; i >= 0; i-- {
+		switch n := stack[i].(type) {
+		case *ast.FuncLit, *ast.FuncDecl:
+			return ""
+		case *ast.IfStmt:
+			if b, ok := ast.Unparen(n.Cond).(*ast.BinaryExpr); ok && b.Op == token.EQL {
+				for _, side := range []ast.Expr{b.X, b.Y} {
+					var sid *ast.Ident
+					switch x := ast.Unparen(side).(type) {
+					case *ast.Ident:
+						sid = x
+					case *ast.SelectorExpr:
+						sid = x.Sel
+					}
+					if sid != nil && p.info.Uses[sid] == v && v != nil {
+						return "racy lazy initialisation: `if " + id.Name + " == nil { " + id.Name + " = ... }` outside init() / sync.Once"
+					}
+				}
+			}
+		}
+	}
+	return ""
 }
 
 // usesOf walks a node and reports every classified occurrence of the variables selected by want.
@@ -1390,7 +1417,7 @@ func (a *analysis) classify(g *global, uses []use) {
 		g.Class, g.Evidence = "synchronised", "sync primitive or type documented as safe for concurrent use ("+types.TypeString(v.Type(), nil)+")"
 		for _, u := range uses {
 			if !u.init && (u.cat == "assign" || u.cat == "field-write" || u.cat == "elem-write") && u.gi.key == "" {
-				g.Class, g.Evidence = "unsynchronised-mutable", "the variable itself is overwritten: "+u.cat+" in "+u.fn
+				g.Class, g.Evidence = "unsynchronised-mutable", "the variable itself is overwritten: "+u.cat+optDetail(u)+" in "+u.fn
 			}
 		}
 		return
